@@ -6,11 +6,11 @@
 EXTENDS VbftSelect, TLCExt, Json
 VARIABLES l, nn, cc, pool
 TraceLog == ndJsonDeserialize("trace.ndjson")
-tvars == <<vrf0, tbl0, l, nn, cc, pool>>
+tvars == <<vrf0, tbl0, new0, l, nn, cc, pool>>
 Ev == TraceLog[l]
 
 TCfg == /\ l <= Len(TraceLog) /\ Ev.op = "cfg" /\ l' = l + 1
-        /\ tbl0' = Ev.tbl /\ nn' = Ev.n /\ cc' = Ev.c /\ pool' = Range(Ev.pool) /\ UNCHANGED vrf0
+        /\ tbl0' = Ev.tbl /\ nn' = Ev.n /\ cc' = Ev.c /\ pool' = Range(Ev.pool) /\ UNCHANGED <<vrf0, new0>>
         /\ LET mon == /\ Ev.same                                   \* the table is a function of (pool, height)
                       /\ Range(Ev.tbl) = Range(Ev.pool)            \* built from the governance pool, every member has a slot
                       /\ Ev.n = Cardinality(Range(Ev.pool))
@@ -18,19 +18,27 @@ TCfg == /\ l <= Len(TraceLog) /\ Ev.op = "cfg" /\ l' = l + 1
 
 Verdict(conf, mon) == (conf /\ mon) \/ PrintT(<<"VERDICT", ToJson([l |-> l, conf |-> conf, mon |-> mon])>>)
 
-TBuild == /\ l <= Len(TraceLog) /\ Ev.op = "build" /\ l' = l + 1 /\ UNCHANGED <<vrf0, tbl0, nn, cc, pool>>
+TBuild == /\ l <= Len(TraceLog) /\ Ev.op = "build" /\ l' = l + 1 /\ UNCHANGED <<vrf0, tbl0, new0, nn, cc, pool>>
           /\ LET got == [err |-> Ev.err, p |-> Ev.p, e |-> Ev.e, c |-> Ev.c]
              IN Verdict(~Ev.re \/ got = Build(Ev.vrf, tbl0, nn, cc), WellFormed(got, tbl0, cc) /\ Ev.same)   \* re: recompute this draw
 
-TPeers == /\ l <= Len(TraceLog) /\ Ev.op = "peers" /\ l' = l + 1 /\ UNCHANGED <<vrf0, tbl0, nn, cc, pool>>
+TPeers == /\ l <= Len(TraceLog) /\ Ev.op = "peers" /\ l' = l + 1 /\ UNCHANGED <<vrf0, tbl0, new0, nn, cc, pool>>
           /\ Verdict(Ev.out = CalcPeers(Ev.vrf, tbl0, nn, cc, Ev.kind, Ev.props),
                      WellFormedPeers(Ev.out, tbl0, nn, cc, Ev.kind, Ev.props) /\ Ev.same)
 
-TPart == /\ l <= Len(TraceLog) /\ Ev.op = "part" /\ l' = l + 1 /\ UNCHANGED <<vrf0, tbl0, nn, cc, pool>>
+TPart == /\ l <= Len(TraceLog) /\ Ev.op = "part" /\ l' = l + 1 /\ UNCHANGED <<vrf0, tbl0, new0, nn, cc, pool>>
          /\ Verdict(Ev.out = CalcParticipant(Ev.vrf, tbl0, Ev.k), Ev.out = NoPeer \/ Ev.out \in Range(tbl0))
 
-TraceInit == TLCSet(1, 1) /\ vrf0 = <<>> /\ tbl0 = <<>> /\ l = 1 /\ nn = 0 /\ cc = 0 /\ pool = {}
-TraceNext == TCfg \/ TBuild \/ TPeers \/ TPart
+\* Server.updateParticipantConfig for the round after block b-1: Ev.cur = the node's Server.config, Ev.new = the
+\* NewChainConfig carried by block b-1 (tbl = <<>>: none); Ev.same: a node whose Server.config is already the config in
+\* force derives the same selection from the same block
+TRound == /\ l <= Len(TraceLog) /\ Ev.op = "round" /\ l' = l + 1 /\ UNCHANGED <<vrf0, tbl0, new0, nn, cc, pool>>
+          /\ LET got == [err |-> Ev.err, p |-> Ev.p, e |-> Ev.e, c |-> Ev.c]
+                 f   == InForce(Ev.cur, Ev.new)
+             IN Verdict(got = RoundBuild(Ev.vrf, Ev.cur, Ev.new), WellFormed(got, f.tbl, f.c) /\ Ev.same)
+
+TraceInit == TLCSet(1, 1) /\ vrf0 = <<>> /\ tbl0 = <<>> /\ new0 = <<>> /\ l = 1 /\ nn = 0 /\ cc = 0 /\ pool = {}
+TraceNext == TCfg \/ TBuild \/ TPeers \/ TPart \/ TRound
 TraceSpec == TraceInit /\ [][TraceNext]_tvars
 HighWater == TLCSet(1, IF TLCGet(1) < l THEN l ELSE TLCGet(1))
 Accepted == PrintT(<<"HIGHWATER", TLCGet(1)>>) /\ TLCGet(1) = Len(TraceLog) + 1
